@@ -43,7 +43,7 @@ from core import impl as I
 from core.common import f2b, b2f, close, HARNESS, REPO
 
 ID = "C19"
-LEAN_MODULES = ["AcnProofs.C19"]
+LEAN_MODULES = ["AcnProofs.C19", "AcnProofs.C19Abort"]
 TIE_MODULES = ["AcnProofs.Lemmas.CodeTieSimEvent"]
 DRIVER = "drv_C19"
 REQUIRED_THEOREMS = [
@@ -53,7 +53,7 @@ REQUIRED_THEOREMS = [
     "Acn.C19.wellFormed_protocol", "Acn.C19.starvation_free", "Acn.C19.all_gone_after_horizon",
     "Acn.C19.eventCore_history_wellFormed", "Acn.C19.end_to_end", "Acn.C19.end_to_end_properties",
     "Acn.C19.end_to_end_ledger_partial", "Acn.C19.end_to_end_sim", "Acn.C19.end_to_end_sim_properties",
-    "Acn.C19.end_to_end_sim_energy",
+    "Acn.C19.end_to_end_sim_energy", "Acn.C19.no_starvation_behind_satisfied", "Acn.C19.end_to_end_sim_abort",
 ]
 BUDGET = {"quick": 2000, "thorough": 15000, "search": 12000}
 TRUSTED = ["heapq: in the history-level model the order among equal keys is taken from the implementation's own "
@@ -61,11 +61,15 @@ TRUSTED = ["heapq: in the history-level model the order among equal keys is take
            "transcription of CPython's array heap and compared with the implementation",
            "random.choice(seq) returns an element of seq (its index is the model's input)",
            "OrderedDict insertion order / popitem(last=False) / move_to_end; dict order of _EVSEs",
-           "EV.fully_charged is an input of the history-level model (read from the implementation each period); in the "
-           "FULL simulator model (Acn.SimSt.run, theorems end_to_end_sim / end_to_end_sim_energy) it is computed from the "
-           "energies the model itself delivers - executed for the hand-built networks with the harness' scheduler "
-           "(pilots, rates, energies, EVSE pilots compared each period); with the package's real algorithms and the "
-           "factory-built networks the scheduler's output is not modelled and fully_charged stays an input",
+           "EV.fully_charged is an input of the history-level model only (read from the implementation each period); in the "
+           "FULL simulator model (Acn.SimSt.run, theorems end_to_end_sim / _energy / _abort / no_starvation_behind_satisfied) "
+           "it is computed from the energies the model itself delivers - executed for EVERY session case: hand-built and "
+           "factory-built networks, the harness' scheduler and the package's real algorithms (UncontrolledCharging, "
+           "RoundRobin, sorted FCFS / EDF / LLF through the modelled Interface adapter of C07/C08); per period the network "
+           "snapshot, counters, energies, EVSE pilots, and at the end pilot / charging-rate matrices are compared; the "
+           "model's only dynamic input is the stream of random choices",
+           "the STATIC description of a network (registration order, EVSE class and parameters, voltage, constraint rows, "
+           "limits, phase angles) is read from the implementation once per case (C12 / C16 are about it being right)",
            "PYTHONHASHSEED: independence of the interpreter's string hashing is EXPLORED (2 worker processes with "
            "pinned, different hash seeds + the harness process per cross-process case; 3 in the thorough tier), not "
            "proved; the model takes the registration order of a factory-built network from the implementation"]
@@ -91,6 +95,12 @@ RULE = ("hand-built networks: per case 1-4 stations, 1-12 sessions over a short 
         "the whole observation - registration order, constraint order, every snapshot, event history, counters, pilot "
         "and charging-rate matrices, delivered energy - must be identical in all of them and in the harness process "
         "(oracle kind not_reproducible_across_processes; the replay is the case incl. its hash seeds). "
+        "The package's algorithms also run on hand-built networks (unc / rr / llf, ~1 case in 4). CRASH + SECOND run(): ~12 % of "
+        "the hand-built and ~15 % of the factory cases carry `crash` {t, kind}: in period t (0..H) the scheduler raises once "
+        "(kind raise; the second run() on the same simulator object must complete and every clause of the oracle is judged on "
+        "the whole trace) or hands out 40 A (kind rate; EVSE.set_pilot raises InvalidRateError in both run() calls); the error "
+        "of each run(), the state the raise left behind (network snapshot, counters, iteration, energies, EVSE pilots) and "
+        "everything after it are compared with the phase model of the driver (SimSt.body continued from the abort state). "
         "non-trivial = some session had to wait (more simultaneous sessions than stations); distinct by case hash")
 
 START = datetime(2020, 1, 1)
